@@ -52,7 +52,10 @@ THEOREMS = ["nnid_range", "fill_wellformed", "fill_loads_exactly", "attempts_bou
             "count_shortcut_counterexample", "readback_counterexample", "block_count_overflow_example",
             # region-compression contract discharged by C12 (no CompressOK hypothesis)
             "compress_contract_discharged", "compressC12_eq", "fill_wellformed_c12", "load_sound_c12",
-            "load_error_exact_c12", "attempts_bounded_c12", "resend_exact_c12"]
+            "load_error_exact_c12", "attempts_bounded_c12", "resend_exact_c12",
+            # send_signal / count_cores_in_state / wait_for_cores_to_reach_state (Props/C09Sig.lean)
+            "signal_types_total", "signal_packing_exact", "start_signal_is_send_signal", "count_packing_exact",
+            "count_cores_sum", "count_cores_invalid", "wait_returns_count", "wait_terminates_under_clock_progress"]
 
 RULE = ("cases = (machine of 1-40 chips: rectangles at several origins incl. aligned 4x4/8x8 blocks, scattered chips up to "
         "coordinate 255; 1-3 binaries of length around multiples of the buffer (buffer in {4,8,16,64,128,256}); core sets "
@@ -674,6 +677,317 @@ def judge(ctx, case, res, kinds, rs, n_fills, k):
         break
 
 
+# --------------------------------------------------------------------------
+# send_signal / count_cores_in_state / wait_for_cores_to_reach_state
+# (companion model RigModel/Model/C09Sig.lean, suite c09sig)
+# --------------------------------------------------------------------------
+def load_sig_tables():
+    """the generated enumerations (read back from the file the translator wrote from the source)"""
+    import re
+    from harness import common
+    t = {}
+    for line in open(os.path.join(common.GEN, "LoadSig.lean")):
+        m = re.match(r"def (\w+) : List \((\w+) × Nat\) := \[(.*)\]$", line.strip())
+        if m:
+            if m.group(2) == "String":
+                t[m.group(1)] = [(a, int(b)) for a, b in re.findall(r'\("(\w+)", (\d+)\)', m.group(3))]
+            else:
+                t[m.group(1)] = [(int(a), int(b)) for a, b in re.findall(r"\((\d+), (\d+)\)", m.group(3))]
+    return t
+
+
+class WaitCap(Exception):
+    """the scripted `time.sleep` was called as often as the model has fuel"""
+
+
+class FakeTime(object):
+    """stands in for the module `time` inside machine_controller during one call: scripted integer
+    clock; every sleep lets the simulated machine move on by one step of the evolution script"""
+
+    def __init__(self, machine, clock, evolve, cap):
+        self.machine, self.clock, self.evolve, self.cap = machine, clock, evolve, cap
+        self.reads = 0
+        self.sleeps = []
+
+    def time(self):
+        if self.reads >= len(self.clock):
+            raise Infra("clock script exhausted")
+        v = self.clock[self.reads]
+        self.reads += 1
+        return v
+
+    def sleep(self, d):
+        k = len(self.sleeps)
+        self.sleeps.append(d)
+        for x, y, p, st, app in (self.evolve[k] if k < len(self.evolve) else []):
+            self.machine.cores[(x, y, p)] = (st, app, self.machine.core(x, y, p)[2])
+        if len(self.sleeps) >= self.cap:
+            raise WaitCap()
+
+
+def py_arg(spec, enum):
+    """{"name": s} -> the str; {"value": n, "as": "int" | "member"} -> the int or the enum member"""
+    if "name" in spec:
+        return spec["name"]
+    return enum(spec["value"]) if spec.get("as") == "member" else spec["value"]
+
+
+def lean_arg(spec):
+    return spec["name"] if "name" in spec else spec["value"]
+
+
+def gen_arg(rng, table, enum_name):
+    names = [n for n, _ in table]
+    vals = [v for _, v in table]
+    r = rng.random()
+    if r < 0.45:
+        return {"name": rng.choice(names)}
+    if r < 0.65:
+        return {"value": rng.choice(vals), "as": "member"}
+    if r < 0.85:
+        return {"value": rng.choice(vals), "as": "int"}
+    if r < 0.93:
+        return {"name": rng.choice(["nosuch", "Wait", "waiting", "", "start_", "run "])}
+    return {"value": rng.choice([v for v in (12, 13, 14, 16, 17, 31, 255, 256) if v not in vals]), "as": "int"}
+
+
+def gen_sig_case(rng, t):
+    chips = dedup(gen_chips(rng))[:10]
+    app_id = rng.choice([16, 30, 66, 255, rng.randrange(1, 256)])
+    other = app_id % 255 + 1
+    st_vals = [v for _, v in t["appStates"]]
+    all_cores = [(x, y, p) for (x, y) in chips for p in range(18)]
+    pre = {}
+    for core in rng.sample(all_cores, min(len(all_cores), rng.randrange(0, 12))):
+        pre[core] = [core[0], core[1], core[2], rng.choice(st_vals + [WAIT, WAIT, RUN]),
+                     rng.choice([app_id, app_id, app_id, other]), [rng.randrange(256) for _ in range(4)]]
+    case = {"chips": chips, "sdram_sys": 0x60000000, "vcpu_base": 0xe5007000, "app_id": app_id,
+            "pre": [pre[c] for c in sorted(pre)]}
+    kind = rng.choice(["signal", "count", "count", "wait", "wait", "wait"])
+    case["kind"] = kind
+    if kind == "signal":
+        case["signal"] = gen_arg(rng, t["appSignals"], "AppSignal")
+        if rng.random() < 0.35:
+            case["signal"] = rng.choice([{"name": "start"}, {"value": 3, "as": "member"}, {"value": 3, "as": "int"}])
+        return case
+
+    def state_arg():
+        if rng.random() < 0.5:
+            a = gen_arg(rng, t["appStates"], "AppState")
+            if rng.random() < 0.5:
+                a = rng.choice([{"name": "wait"}, {"name": "run"}, {"value": WAIT, "as": "member"}])
+            return a, None
+        n = rng.choice([0, 1, 2, 2, 3, 4])
+        l = [gen_arg(rng, t["appStates"], "AppState") for _ in range(n)]
+        if rng.random() < 0.6:      # mostly valid lists
+            l = [a for a in l if ("name" in a and a["name"] in dict(t["appStates"])) or
+                 ("value" in a and a["value"] in st_vals)] or [{"name": "wait"}]
+        return l, rng.choice(["list", "tuple", "gen"])
+    case["state"], case["container"] = state_arg()
+    if kind == "count":
+        return case
+    if case["container"] == "gen":
+        # a generator is consumed by the first poll (later polls would sum nothing): the model's
+        # iterable is re-iterable, as every caller's list / tuple / set of states is
+        case["container"] = "tuple"
+    # wait: target count, timeout, clock script, evolution of the machine during the sleeps
+    n_now = sum(1 for c in pre.values() if c[4] == app_id)
+    case["count"] = rng.choice([0, 1, 2, 3, n_now, n_now + 1, n_now + 2, 40])
+    steps = rng.randrange(0, 6)
+    evolve = []
+    for _ in range(steps):
+        ups = []
+        for core in rng.sample(all_cores, min(len(all_cores), rng.choice([0, 1, 1, 2, 3]))):
+            ups.append([core[0], core[1], core[2], rng.choice([WAIT, WAIT, WAIT, RUN, IDLE] + st_vals[:4]),
+                        rng.choice([app_id, app_id, app_id, other])])
+        evolve.append(ups)
+    case["evolve"] = evolve
+    case["fuel"] = rng.choice([4, 6, 9])
+    if rng.random() < 0.7:
+        tmo = rng.choice([0, 1, 2, 3, 5, 8])
+        t0 = rng.randrange(0, 1000)
+        clock, now = [t0], t0
+        style = rng.choice(["unit", "unit", "jumps", "stalls"])
+        for _ in range(case["fuel"] + 2):
+            now += 1 if style == "unit" else rng.choice([0, 1, 2, 5]) if style == "jumps" else rng.choice([0, 0, 1])
+            clock.append(now)
+        case["timeout"], case["clock"] = tmo, clock
+    else:
+        case["timeout"], case["clock"] = None, []
+    case["poll"] = rng.choice([0.1, 0.25, 1.0])
+    return case
+
+
+def run_sig_impl(case, k, t):
+    from rig.machine_control import machine_controller as mcm
+    from rig.machine_control import scp_connection as sc
+    from rig.machine_control import consts
+    machine = LoadMachine(case["chips"], 256, case["sdram_sys"], case["vcpu_base"], [], case["pre"], k)
+    net = simnet.Net(machine.handle, lambda i, d: None)
+    res = {"sleeps": []}
+
+    def state_value():
+        st = case["state"]
+        if isinstance(st, list):
+            vals = [py_arg(a, consts.AppState) for a in st]
+            return {"list": list, "tuple": tuple, "gen": lambda v: (x for x in v)}[case["container"]](vals)
+        return py_arg(st, consts.AppState)
+    with simnet.installed(net):
+        mc = simmachine.make_controller(net, timeout=4.0)
+        try:
+            if case["kind"] == "signal":
+                mc.send_signal(py_arg(case["signal"], consts.AppSignal), case["app_id"])
+                res["result"] = "ok"
+            elif case["kind"] == "count":
+                res["result"] = {"count": int(mc.count_cores_in_state(state_value(), case["app_id"]))}
+            else:
+                fake = FakeTime(machine, case["clock"], case["evolve"], case["fuel"])
+                real = mcm.time
+                mcm.time = fake
+                try:
+                    n = mc.wait_for_cores_to_reach_state(state_value(), case["count"], case["app_id"],
+                                                         poll_interval=case["poll"], timeout=case["timeout"])
+                    res["result"] = {"count": int(n)}
+                except WaitCap:
+                    res["result"] = "out_of_fuel"
+                finally:
+                    mcm.time = real
+                    res["sleeps"] = fake.sleeps
+                    res["clock_reads"] = fake.reads
+        except ValueError:
+            res["result"] = {"error": "ValueError"}
+        except KeyError:
+            res["result"] = {"error": "KeyError"}
+        except sc.SCPError as e:
+            res["result"] = {"error": "SCPError"}
+        except (TypeError, IndexError, OverflowError, AttributeError) as e:
+            res["result"] = {"error": "%s %s" % (type(e).__name__, e)}
+    res["trace"] = machine.log
+    res["after"] = machine.cores_list()
+    return res
+
+
+def same_reply(model, sim):
+    """the specification models only count and start: `unmodelled` stands for any refusal of the simulator"""
+    if model.get("rc") == "unmodelled":
+        return sim.get("rc") != "ok"
+    return model == sim
+
+
+def eval_sig_cases(ctx, cases):
+    k = load_consts()
+    t = load_sig_tables()
+    reqs, metas = [], []
+    for case in cases:
+        res = run_sig_impl(case, k, t)
+        base = {"suite": "c09sig", "chips": case["chips"], "missed": [], "sdram_sys": case["sdram_sys"],
+                "vcpu_base": case["vcpu_base"], "cores": case["pre"], "app_id": case["app_id"]}
+        if case["kind"] == "signal":
+            reqs.append(dict(base, op="signal", signal=lean_arg(case["signal"])))
+        else:
+            st = case["state"]
+            st_j = [lean_arg(a) for a in st] if isinstance(st, list) else lean_arg(st)
+            if case["kind"] == "count":
+                reqs.append(dict(base, op="count", state=st_j))
+            else:
+                reqs.append(dict(base, op="wait", state=st_j, count=case["count"], timeout=case["timeout"],
+                                 clock=case["clock"], evolve=case["evolve"], fuel=case["fuel"]))
+        oracle = None
+        if case["kind"] == "wait" and isinstance(res["result"], dict) and "count" in res["result"]:
+            n_states = len(case["state"]) if isinstance(case["state"], list) else 1
+            n_polls = len(res["sleeps"]) + 1
+            counts = [e[1].get("arg1", 0) for e in res["trace"]]
+            polls = [sum(counts[i * n_states:(i + 1) * n_states]) for i in range(n_polls)]
+            oracle = dict(suite="c09sig", op="wait_ok", clock=case["clock"], timeout=case["timeout"],
+                          count=case["count"], polls=polls, ret=res["result"]["count"])
+            reqs.append(oracle)
+        metas.append((case, res, oracle is not None))
+    replies = ctx.lean(reqs)
+    pos = 0
+    for case, res, has_oracle in metas:
+        mo = replies[pos]
+        orc = replies[pos + 1] if has_oracle else None
+        pos += 2 if has_oracle else 1
+        for r in (mo, orc):
+            if r is not None and "proto_error" in r:
+                raise Infra("lean driver: %s" % r["proto_error"])
+        judge_sig(ctx, case, res, mo, orc)
+
+
+def judge_sig(ctx, case, res, mo, orc):
+    result = res["result"]
+    kind = case["kind"]
+    nontrivial = (kind == "wait" and len(res["sleeps"]) > 0) or (kind == "count" and isinstance(case["state"], list)) \
+        or (isinstance(result, dict) and "error" in result) or (kind == "signal" and result == "ok")
+    ctx.case(case, nontrivial)
+    ctx.traces += 1
+    rtag = "ok" if result == "ok" else "out_of_fuel" if result == "out_of_fuel" else \
+        "count" if "count" in result else result["error"].split()[0]
+    ctx.tag("sig_" + kind, "sig_" + kind + "_" + rtag)
+    if kind == "wait":
+        ctx.tag("wait_timeout" if case["timeout"] is not None else "wait_no_timeout",
+                "wait_sleeps_%s" % (min(len(res["sleeps"]), 3)))
+        if isinstance(result, dict) and "count" in result:
+            ctx.tag("wait_reached" if result["count"] >= case["count"] else "wait_timed_out")
+    it = [norm_entry(e) for e in res["trace"]]
+    mt = [norm_entry(e) for e in mo["trace"]]
+    # an SCPError is expected exactly when the machine specification does not model the request
+    refused = bool(mt) and mt[-1][1].get("rc") == "unmodelled"
+    if isinstance(result, dict) and result.get("error") == "SCPError" and refused and kind == "signal":
+        result = "ok"
+    if len(it) != len(mt) or any(a[0] != b[0] or not same_reply(b[1], a[1]) for a, b in zip(it, mt)):
+        i = next((i for i, (a, b) in enumerate(zip(it, mt)) if a[0] != b[0] or not same_reply(b[1], a[1])),
+                 min(len(it), len(mt)))
+        ctx.mismatch("c09sig.trace", "%s: request/reply %d differs (impl %d entries, model %d): impl=%r model=%r" % (
+            kind, i, len(it), len(mt), it[i:i + 1], mt[i:i + 1]), case)
+    elif result != mo["result"]:
+        ctx.mismatch("c09sig.result", "%s: impl=%r model=%r" % (kind, result, mo["result"]), case)
+    elif kind == "wait" and (len(res["sleeps"]) != mo["sleeps"] or any(d != case["poll"] for d in res["sleeps"])):
+        ctx.mismatch("c09sig.sleeps", "impl slept %r, model %d times for %r" % (res["sleeps"], mo["sleeps"], case["poll"]), case)
+    elif kind != "count" and sorted(mo["cores"]) != sorted(res["after"]):
+        ctx.mismatch("c09sig.state", "%s: final core states differ" % kind, case)
+    elif orc is not None and not orc["ok"]:
+        # the Lean specification predicate `waitOK` on the implementation's own polls and return value
+        ctx.mismatch("c09sig.wait_spec", "wait_for_cores_to_reach_state returned %r: not the last count, or the loop "
+                     "did not stop at the first poll that reached the count / passed the deadline" % (result,), case)
+
+
+def sig_fixed_cases(t):
+    """every member of AppSignal / AppState by name, as member and as int; the three loop exits"""
+    base = {"chips": [[0, 0], [1, 0]], "sdram_sys": 0x60000000, "vcpu_base": 0xe5007000, "app_id": 30,
+            "pre": [[0, 0, 1, WAIT, 30, [1, 2, 3, 4]], [1, 0, 2, WAIT, 30, [1, 2, 3, 4]], [1, 0, 3, RUN, 30, [5, 6, 7, 8]],
+                    [0, 0, 4, WAIT, 31, [1, 2, 3, 4]]]}
+    out = []
+    for name, v in t["appSignals"]:
+        for spec in ({"name": name}, {"value": v, "as": "member"}, {"value": v, "as": "int"}):
+            out.append(dict(base, kind="signal", signal=spec))
+    for name, v in t["appStates"]:
+        for spec in ({"name": name}, {"value": v, "as": "member"}, {"value": v, "as": "int"}):
+            out.append(dict(base, kind="count", state=spec, container=None))
+    out.append(dict(base, kind="count", state=[{"name": n} for n, _ in t["appStates"]], container="list"))
+    out.append(dict(base, kind="count", state=[{"name": "wait"}, {"name": "nosuch"}, {"name": "run"}], container="tuple"))
+    wait = dict(base, kind="wait", state={"name": "wait"}, container=None, poll=0.1, fuel=6,
+                evolve=[[], [[0, 0, 7, WAIT, 30]], [[0, 0, 8, WAIT, 30]]])
+    out.append(dict(wait, count=2, timeout=None, clock=[]))                       # reached at once
+    out.append(dict(wait, count=4, timeout=None, clock=[]))                       # reached after three sleeps
+    out.append(dict(wait, count=9, timeout=2, clock=[10, 11, 12, 13, 14, 15, 16, 17]))   # deadline passes
+    out.append(dict(wait, count=9, timeout=None, clock=[]))                       # never: out of fuel
+    out.append(dict(wait, count=9, timeout=1000, clock=[10] * 8))                 # clock stalls: out of fuel
+    return out
+
+
+def run_sig(ctx):
+    t = load_sig_tables()
+    cases = sig_fixed_cases(t)
+    n = ctx.scale(150, 3000)
+    if ctx.extended:
+        n *= 4
+    for _ in range(n):
+        cases.append(gen_sig_case(ctx.rng, t))
+    for i in range(0, len(cases), 200):
+        eval_sig_cases(ctx, cases[i:i + 200])
+
+
 def run(ctx):
     ctx.extra["rule"] = RULE
     ctx.extra["trusted_base"] = [
@@ -698,6 +1012,7 @@ def run(ctx):
             cases += exhaustive_missed()
         for i in range(0, len(cases), 100):
             eval_cases(ctx, cases[i:i + 100])
+        run_sig(ctx)
     finally:
         if _TMP[0]:
             shutil.rmtree(_TMP[0], ignore_errors=True)
@@ -724,7 +1039,10 @@ def exhaustive_missed():
 def replay(ctx, payload):
     ctx.extra["rule"] = RULE
     try:
-        eval_cases(ctx, [payload["case"]])
+        if "kind" in payload["case"]:
+            eval_sig_cases(ctx, [payload["case"]])
+        else:
+            eval_cases(ctx, [payload["case"]])
     finally:
         if _TMP[0]:
             shutil.rmtree(_TMP[0], ignore_errors=True)
